@@ -105,6 +105,9 @@ def scale_tree(node, sc):
 
 def make_case(ctx, idx, force_mode=None):
     rng = ctx.rng
+    top_op = None
+    if force_mode and force_mode.startswith("bdry:"):
+        force_mode, top_op = "bdry", force_mode.split(":")[1]
     mode = force_mode or rng.choice(["solid2", "solid2", "solid2", "solid1", "solid3", "prod", "prod", "bdry", "bdry", "bdry-adjacent", "bdry-contained", "far"])
     thin_case = False
     params = rng.choice([[], ["t"], ["t", "D"], ["t", "D"]])
@@ -202,6 +205,12 @@ def make_case(ctx, idx, force_mode=None):
             g.allow_translate = False
         var_ = rng.choice(["x", "x", "y", "z"])
         inner = g.solid(min(depth, 2) + (1 if g.allow_translate else 0), var_)
+        if top_op:
+            # a fixed share of boundaries of an intersection / cut / union (not left to the draw)
+            for _ in range(60):
+                if inner.kind == top_op:
+                    break
+                inner = g.solid(2, var_)
         node = geomgen.Node("bdry", None, [], [inner])
     if mode == "far":
         mode = "bdry" if node.kind == "bdry" else {"x": "solid2", "y": "solid1", "z": "solid3"}[node.vars()[0]]
@@ -685,6 +694,15 @@ def interior_acceptance_all(cases, results, rep):
                      f"it is farther than the tolerance from the boundary", where, finding=finding)
 
 
+def _prim_leaves(node):
+    if node.is_prim():
+        return [node]
+    out = []
+    for k_ in node.kids:
+        out += _prim_leaves(k_)
+    return out
+
+
 def slice_stream(ctx, rep):
     """products evaluated at ALL variables of a multi-variable factor (`P(**values)`, keywords in any order):
     the result must be the slice — membership = membership of the full product at the fixed values, and points whose
@@ -717,7 +735,20 @@ def slice_stream(ctx, rep):
             rep.fail(f"evaluating a product at all variables of its second factor raised {type(e).__name__}: {str(e)[:150]}",
                      dict(dom=node.describe(), call_order=list(order), values={k: str(v) for k, v in (("s", s0), ("y", y0))}))
             continue
-        xs = [[Fr(rng.randint(-5 * 16, 5 * 16), 16), Fr(rng.randint(-5 * 16, 5 * 16), 16)] for _ in range(12)]
+        xs = [[Fr(rng.randint(-5 * 16, 5 * 16), 16), Fr(rng.randint(-5 * 16, 5 * 16), 16)] for _ in range(8)]
+        # … and points at / around the centroids of the primitives of the first factor at s = s0, so that the slice is not
+        # only probed from outside (a stream whose random points all miss the shape decides nothing about "on" and "swapped" rows)
+        for leaf in [l_ for l_ in _prim_leaves(a) if l_.kind in ("par", "tri", "circle")][:3]:
+            try:
+                pos = [pf_.eval({"s": [s0]}) for pf_ in (leaf.pfs[:1] if leaf.kind == "circle" else leaf.pfs)]
+            except Exception:  # noqa
+                continue
+            if leaf.kind == "par":
+                cen = [pos[1][j] / 2 + pos[2][j] / 2 for j in range(2)]
+            else:
+                cen = [sum(p_[j] for p_ in pos) / len(pos) for j in range(2)]
+            xs.append([f32(cen[0]), f32(cen[1])])
+            xs.append([f32(cen[0] + Fr(rng.randint(-2, 2), 16)), f32(cen[1] + Fr(rng.randint(-2, 2), 16))])
         rows = []
         for x in xs:
             rows.append(("on", x, s0, y0))
@@ -966,6 +997,7 @@ def run(ctx, rep, cases=None):
         cases = [make_case(ctx, i) for i in range(ctx.scale(150, 2500))]
         # primitives far from the origin (half of the parallelograms / triangles long and thin): a fixed share, not left to the draw
         cases += [make_case(ctx, len(cases) + i, force_mode="far") for i in range(ctx.scale(40, 400))]
+        cases += [make_case(ctx, len(cases) + i, force_mode="bdry:" + ["inter", "cut", "inter", "union"][i % 4]) for i in range(ctx.scale(16, 240))]
     lines, spans = [], []
     for cs in cases:
         ls = driver_lines(cs)
